@@ -188,6 +188,24 @@ def main(argv=None):
         print(f"CHECK-ERROR property={prop} no function is under contract for this property")
         return 3
     _G.update(P=P, REG=REG, opts=opts)
+    # G3: the executor in concrete mode must agree with CPython on the cross-check corpus for THIS tree before any verdict is
+    # given (a disagreement is an engine fault: exit 3, never a pass and never a violation)
+    args.g3 = None
+    if not os.environ.get("PYVC_SKIP_G3") and not args.only:
+        try:
+            from selftest.run import cross_check
+
+            args.g3 = cross_check(args.repo, jobs=min(args.jobs, 8), show=3)
+        except Exception as e:  # the guard itself broke: say so, do not turn it into a verdict
+            args.g3 = {"error": f"{type(e).__name__}: {e}"}
+        g3 = args.g3
+        if g3.get("error"):
+            print(f"G3-SKIPPED property={prop} {g3['error'][:300]}")
+        elif g3["disagree"]:
+            for b in g3["examples"]:
+                print("G3-DISAGREE", b["function"], json.dumps(b["args"])[:160], "cpython:", json.dumps(b["cpython"])[:160], "engine:", json.dumps(b["engine"])[:160])
+            print(f"CHECK-ERROR property={prop} the symbolic executor and CPython disagree on {g3['disagree']} of {g3['cases']} cross-check inputs (engine fault, no verdict)")
+            return 3
     results = run_all(targets, args.jobs)
 
     from pyvc.report import decide
